@@ -214,6 +214,15 @@ func runOpDecision(c *core.Ctx) {
 			ref: func(a dtAtoms) bool { return a.I("idx") != a.I("len(sets)") && a.B("it.Done()") }},
 		{fn: ".SetRefinement", key: "keeps-satisfying", why: "{x \\in S : P(x)} keeps exactly the elements satisfying P", find: builderSet, bools: []string{"it.Done()", "pred(elem)"},
 			ref: func(a dtAtoms) bool { return !a.B("it.Done()") && a.B("pred(elem)") }},
+		{fn: ".MakeFunctionSet", key: "always-built-from-the-domain", why: "[S -> T] is built by giving every element of S the codomain T, for every S and T: [{} -> T] is {<<>>} (one function, the empty one) even when T is empty, and no special case may short-cut that",
+			find: func(info *types.Info, n ast.Node) bool {
+				r, ok := n.(*ast.ReturnStmt)
+				if !ok || len(r.Results) != 1 {
+					return false
+				}
+				call, isCall := an.Unparen(r.Results[0]).(*ast.CallExpr)
+				return isCall && an.CalleeFunc(info, call) != nil && an.CalleeFunc(info, call).Name() == "MakeRecordSet"
+			}, ref: func(a dtAtoms) bool { return true }},
 		{fn: ".Choose", key: "returns-first-satisfying", why: "CHOOSE returns an element satisfying the predicate", find: returnsNextElem, bools: []string{"it.Done()", "pred(elemV)"},
 			ref: func(a dtAtoms) bool { return !a.B("it.Done()") && a.B("pred(elemV)") }},
 		{fn: ".SetComprehension", key: "emits-at-full-depth", why: "one result per complete tuple of bound values", find: builderSet, ints: map[string]string{"idx": "", "len(sets)": ""},
